@@ -311,11 +311,17 @@ func c07Strictness(c *rep.Ctx) {
 					return containsCallTo(info, rhs, "chain.(*ChainDB).getBestBlockNo")
 				}
 			}
-			return false
+			return containsCallTo(info, e, "chain.(*ChainDB).getBestBlockNo")
 		}
 		roleNew := func(e ast.Expr) bool {
-			if o := an.ObjOf(info, e); o != nil {
-				if rhs, _ := g.SingleDef(o); rhs != nil {
+			{
+				rhs := e
+				if o := an.ObjOf(info, e); o != nil {
+					if r2, _ := g.SingleDef(o); r2 != nil {
+						rhs = r2
+					}
+				}
+				{
 					// number of element 0 (the tip) of the parameter slice
 					ix := false
 					ast.Inspect(rhs, func(n ast.Node) bool {
